@@ -39,6 +39,7 @@ type Failure struct {
 	Got      any      `json:"got,omitempty"`
 	Detail   string   `json:"detail,omitempty"`
 	Features []string `json:"features,omitempty"` // for known-findings matching
+	Instance string   `json:"instance,omitempty"` // WHAT fails (type and observed misbehaviour): a known finding lists its instances
 	Replay   any      `json:"replay,omitempty"`   // {hdr, case}: enough to re-run this case alone
 }
 
@@ -240,7 +241,7 @@ func main() {
 					}
 					// keep a bounded number of failures PER SIGNATURE (kind + features): a crowd of
 					// known findings must never push a different failure out of the report
-					sig := fl.Kind + "|" + strings.Join(fl.Features, ",")
+					sig := fl.Kind + "|" + strings.Join(fl.Features, ",") + "|" + fl.Instance
 					perSig[sig]++
 					if perSig[sig] <= *maxReport && len(res.Failures) < 40**maxReport {
 						res.Failures = append(res.Failures, fl)
